@@ -237,27 +237,29 @@ def run(ctx):
        expect="violation")
     ctx.exhaustive = True
 
-    # ------------------------------------------------------------------ R: the full tuple space on every dtype
-    jobs = index_jobs(thorough, rng)
-    cases = core.run_jobs("spectral_worker", jobs)
-    handle(ctx, cases, "index_tuples")
-    for c in cases[::max(1, len(cases) // 5)]:
-        if "obs" in c:
-            ctx.sample({"idx": c["idx"], "par_halves": c["par"], "dtype": c["job"]["dtype"], "sh": c["sh"],
-                        "cell": c["job"]["cells"][37 % len(c["bs"])], "observed": c["raw"][37 % len(c["bs"])],
-                        "bridged": c["obs"][37 % len(c["bs"])]})
-
-    # ------------------------------------------------------------------ R: true_color
-    cases = core.run_jobs("spectral_worker", color_jobs(rng, thorough))
-    handle(ctx, cases, "true_color", parallel=1)
-    for c in cases:
-        if "dims_ok" in c and not c["dims_ok"]:
-            ctx.report_drift("true_color dims are not (y, x, band)")
-            break
-
-    # ------------------------------------------------------------------ T: seeded float rasters, metamorphic
-    cases = core.run_jobs("spectral_worker", meta_jobs(rng, ctx.pick(300, 3000)))
-    handle(ctx, cases, "float_metamorphic", parallel=4)
+    # ------------------------------------------------------------------ R (+T) through one worker pool
+    groups = [("index_tuples", index_jobs(thorough, rng), 8),
+              ("true_color", color_jobs(rng, thorough), 1),
+              # ---------------------------------------------------------- T: seeded float rasters, metamorphic
+              ("float_metamorphic", meta_jobs(rng, ctx.pick(300, 3000)), 4)]
+    jobs = [j for _, js, _ in groups for j in js]
+    cases = core.run_jobs("spectral_worker", jobs)          # one pool: import + JIT once per process
+    k = 0
+    for tag, js, par in groups:
+        part = cases[k:k + len(js)]
+        k += len(js)
+        handle(ctx, part, tag, parallel=par)
+        if tag == "index_tuples":
+            for c in part[::max(1, len(part) // 5)]:
+                if "obs" in c:
+                    ctx.sample({"idx": c["idx"], "par_halves": c["par"], "dtype": c["job"]["dtype"], "sh": c["sh"],
+                                "cell": c["job"]["cells"][37 % len(c["bs"])], "observed": c["raw"][37 % len(c["bs"])],
+                                "bridged": c["obs"][37 % len(c["bs"])]})
+        if tag == "true_color":
+            for c in part:
+                if "dims_ok" in c and not c["dims_ok"]:
+                    ctx.report_drift("true_color dims are not (y, x, band)")
+                    break
 
 
 META = {
